@@ -57,7 +57,7 @@ var docPool = map[string][]string{
 	"same":   {"file:///w/a/x.json", "file:///w/a/other.json"},
 	"sub":    {"file:///w/a/s/x.json", "file:///w/a/s/other.json", "file:///w/a/s%20p/x.json"}, // one directory whose name needs escaping
 	"parent": {"file:///w/x.json", "file:///w/other.json"},
-	"cousin": {"file:///w/b/x.json", "file:///w/b/other.json", "file:///w/a-common/x.json", "file:///w/a.json"},
+	"cousin": {"file:///w/b/x.json", "file:///w/b/other.json", "file:///w/a-common/x.json", "file:///w/a.json", "file:///w/b/w/a/x.json"}, // the last one has the root's directory in the middle of its path
 	"http":   {"http://h.example/d/x.json", "http://h.example/d/other.json"},
 }
 
@@ -181,8 +181,12 @@ func (g *worldGen) feature(k string) { g.w.Features[k]++ }
 // schema builds an inline schema at (doc, toks); child positions become inline schemas or $ref slots.
 func (g *worldGen) schema(doc string, toks []string, depth int, rank int) map[string]interface{} {
 	s := map[string]interface{}{"title": g.marker(doc, toks)}
-	if g.r.Intn(3) == 0 {
+	switch g.r.Intn(6) {
+	case 0, 1:
 		s["type"] = "object"
+	case 2:
+		// allOf/anyOf/oneOf/not/definitions apply to every type: a scalar type says nothing about sub-schemas
+		s["type"] = []string{"string", "integer"}[len(toks)%2]
 	}
 	if g.o.IDs != 0 && g.r.Intn(3) == 0 {
 		s["id"] = g.idValue()
@@ -247,6 +251,12 @@ func (g *worldGen) schema(doc string, toks []string, depth int, rank int) map[st
 		default:
 			if g.r.Intn(2) == 0 {
 				s["additionalItems"] = child("additionalItems")
+				if !used["items"] && g.r.Intn(2) == 0 {
+					// additionalItems next to a single-schema items (moot for validation, still a schema position)
+					used["items"] = true
+					s["items"] = map[string]interface{}{"title": g.marker(doc, append(append([]string{}, toks...), "items"))}
+					g.feature("additionalItems-next-to-single-items")
+				}
 			} else {
 				m := map[string]interface{}{}
 				for _, n := range names() {
@@ -269,6 +279,8 @@ func (g *worldGen) idValue() string {
 		return "#frag"
 	case 4:
 		return "/abs/dir/"
+	case 6:
+		return fmt.Sprintf("%%zz-%d", g.r.Intn(1000000000)) // not a URI at all; never the same twice
 	default:
 		return "../up/"
 	}
@@ -780,6 +792,13 @@ func (g *worldGen) fillSlots() {
 var Layouts = []string{"ports", "hosts", "schemes"}
 
 func layoutMap(layout, u string) string {
+	if layout == "noext" {
+		// the root document is a file without an extension (a served path such as /v1/api)
+		if u == RootURL {
+			return "file:///w/a/api"
+		}
+		return u
+	}
 	const cousin = "file:///w/b/"
 	other := map[string]string{"ports": "http://h.example:9090", "hosts": "http://g.example:8080", "schemes": "https://h.example:8080"}[layout]
 	switch {
